@@ -641,3 +641,72 @@ func runRevoke(w *world, j *judge, cs childSpec) error {
 	j.b.DistinctS(fmt.Sprintf("revoke|%d|%d", cs.Seed, cs.Shard))
 	return nil
 }
+
+type expiryReplay struct {
+	Mode  string `json:"mode"`
+	Shard int    `json:"shard"`
+}
+
+// runExpiry: several keys with different expiry times in one setting. The keys are loaded
+// once; one of them passes its own expiry while loaded (no configuration change in
+// between) and is then presented: it must grant nothing, while every other key — with a
+// later expiry or none, listed before or after it — keeps granting exactly its own
+// permissions. The shard selects the order in which the keys are listed.
+func runExpiry(w *world, j *judge, cs childSpec) error {
+	r := vlib.NewRand(cs.Seed, "C12/expiry", uint64(cs.Shard))
+	now := time.Now()
+	soonAt := now.Add(4 * time.Second).Truncate(time.Second)
+	soon := cfgKey{Key: "ES" + randKey(r, 14), R: kwAdmin, W: kwAdmin, HasExp: true, Expires: soonAt, Tag: "soon"}
+	far := cfgKey{Key: "EF" + randKey(r, 14), R: kwUser, W: kwAdmin, HasExp: true, Expires: now.Add(time.Duration(r.Range(1, 72)) * time.Hour).Truncate(time.Second), Tag: "far"}
+	far2 := cfgKey{Key: "EG" + randKey(r, 14), R: kwAdmin, W: kwUser, HasExp: true, Expires: now.Add(time.Duration(r.Range(100, 9000)) * time.Hour).Truncate(time.Second), Tag: "far2"}
+	never := cfgKey{Key: "EN" + randKey(r, 14), R: kwAdmin, W: kwAdmin, Tag: "never"}
+	orders := [][]cfgKey{
+		{soon, far},
+		{far, soon},
+		{soon, never, far, far2},
+		{far2, soon, far},
+		{never, far, far2, soon},
+		{soon, far2, never},
+	}
+	list := orders[cs.Shard%len(orders)]
+	var names []string
+	for _, k := range list {
+		names = append(names, k.Tag)
+	}
+	if err := w.setKeys(list); err != nil {
+		return err
+	}
+	if time.Until(soonAt) < expiryMargin+200*time.Millisecond {
+		return errInconclusive("expiry: configuring the keys took so long that the soon-expiring key is too close to its expiry")
+	}
+	targets := append(diagTargets(), target{"/verif/p/2/3", mTarget{"plain", mUser, mAdmin}}, target{"/api/v1/verif/e/3/2", mTarget{"endpoint", mAdmin, mUser}})
+	phase := "before"
+	round := func() {
+		for _, k := range list {
+			for _, form := range []string{"Bearer " + k.Key, "Basic " + b64(k.Key+":")} {
+				for _, t := range targets {
+					for _, mv := range methodVars[:5] {
+						sp := &reqSpec{Via: "handler", Method: mv.Method, Host: testHost, Path: t.Path, Target: t.T, Authz: form, CredTag: "expiry/" + k.Tag}
+						j.replay = func(*reqSpec) any { return expiryReplay{Mode: "expiry", Shard: cs.Shard} }
+						j.run(sp)
+						j.b.Count("expiry_requests_"+phase, 1)
+						j.b.DistinctS(fmt.Sprintf("expiry|%s|%s|%s|%s|%s|%s", strings.Join(names, ","), phase, k.Tag, form[:5], t.Path, mv.Method))
+					}
+				}
+			}
+		}
+	}
+	// while every key is valid (the judge abstains by itself inside the expiry margin)
+	if time.Until(soonAt) > expiryMargin+600*time.Millisecond {
+		round()
+	}
+	// let the first key pass its expiry while it stays loaded
+	if d := time.Until(soonAt.Add(expiryMargin + 300*time.Millisecond)); d > 0 {
+		time.Sleep(d)
+	}
+	phase = "after"
+	round()
+	j.b.Count("expiry_orders_run", 1)
+	j.b.Seen("expiry_orders", strings.Join(names, ","))
+	return nil
+}
